@@ -29,7 +29,10 @@ type scanLoop struct {
 	Var        interface{}    // identity of the slice variable whose length bounds the loop
 	Param      *ssa.Parameter // the slice is a parameter used directly
 	Descending bool
-	IndexPhi   *ssa.Phi
+	// Mirror: the loop counter runs upwards but the elements are indexed with
+	// len-1-counter (so they are visited last to first)
+	Mirror   bool
+	IndexPhi *ssa.Phi
 	// IndexExpr: for descending loops the values used as element index
 	// are IndexPhi-1 (loop from len) or IndexPhi (loop from len-1).
 	FromLen bool
@@ -43,6 +46,9 @@ type scanInfo struct {
 	BlobCalls  []*ssa.Call
 	Problems   []string
 }
+
+// Desc: the elements are visited from the last to the first.
+func (l *scanLoop) Desc() bool { return l.Descending != l.Mirror }
 
 func (c *Ctx) qFn(pkgSuffix, recv, name string) *ssa.Function { return c.fn(pkgSuffix, recv, name) }
 
@@ -75,7 +81,7 @@ func (c *Ctx) loopOver(f *ssa.Function, l *loop) *scanLoop {
 	var lenParam *ssa.Parameter
 	var lenVar interface{}
 	lenCell := func(v ssa.Value) *ssa.Alloc {
-		call, ok := v.(*ssa.Call)
+		call, ok := c.resolve(v).(*ssa.Call) // the length may be cached in a (captured) local
 		if !ok || !isBuiltin(&call.Call, "len") {
 			return nil
 		}
@@ -115,7 +121,7 @@ func (c *Ctx) loopOver(f *ssa.Function, l *loop) *scanLoop {
 			return nil
 		}
 		return &scanLoop{Fn: f, L: l, Cell: cell, Var: lenVar, Param: lenParam, IndexPhi: phi}
-	case token.GTR, token.GEQ:
+	case token.GTR, token.GEQ, token.NEQ:
 		phi, ok := cmp.X.(*ssa.Phi)
 		if !ok || phi.Block() != head {
 			return nil
@@ -127,6 +133,7 @@ func (c *Ctx) loopOver(f *ssa.Function, l *loop) *scanLoop {
 		if init == nil {
 			return nil
 		}
+		init = c.resolve(init)
 		fromLen := true
 		if bo, ok := init.(*ssa.BinOp); ok && bo.Op == token.SUB {
 			if n, ok := constInt(bo.Y); ok && n == 1 {
@@ -137,8 +144,8 @@ func (c *Ctx) loopOver(f *ssa.Function, l *loop) *scanLoop {
 		if cell == nil && lenVar == nil {
 			return nil
 		}
-		if (cmp.Op == token.GTR) != fromLen {
-			return nil // i>0 goes with i:=len ; i>=0 with i:=len-1
+		if (cmp.Op == token.GTR || cmp.Op == token.NEQ) != fromLen {
+			return nil // i>0 (or i!=0) goes with i:=len ; i>=0 with i:=len-1
 		}
 		// all back-edge values must be phi-1
 		for i, pred := range head.Preds {
@@ -279,6 +286,7 @@ func (c *Ctx) scanModel() *scanInfo {
 						}
 					}
 				}
+				c.detectMirror(sl)
 				switch {
 				case hasReq:
 					li.FeedLoops = append(li.FeedLoops, sl)
@@ -387,4 +395,59 @@ func (c *Ctx) holdsResult(base ssa.Value, call *ssa.Call, idx int) bool {
 		return c.holdsResult(u.X, call, idx)
 	}
 	return false
+}
+
+// mirrorIndex: idx = (N - 1) - counter, with N the length of the loop's list
+// and counter the loop's ascending counter.
+func (c *Ctx) mirrorIndex(idx ssa.Value, l *scanLoop) bool {
+	if l.Descending || l.IndexPhi == nil {
+		return false
+	}
+	outer, ok := c.resolve(idx).(*ssa.BinOp)
+	if !ok || outer.Op != token.SUB {
+		return false
+	}
+	isCounter := func(v ssa.Value) bool {
+		if v == ssa.Value(l.IndexPhi) {
+			return true
+		}
+		if bo, ok := v.(*ssa.BinOp); ok && bo.Op == token.ADD && bo.X == ssa.Value(l.IndexPhi) {
+			n, ok := constInt(bo.Y)
+			return ok && n == 1
+		}
+		return false
+	}
+	isLen := func(v ssa.Value) bool {
+		call, ok := c.resolve(v).(*ssa.Call)
+		if !ok || !isBuiltin(&call.Call, "len") {
+			return false
+		}
+		id := c.listID(call.Call.Args[0])
+		return id != nil && id == l.Var
+	}
+	// (N - 1) - k
+	if inner, ok := c.resolve(outer.X).(*ssa.BinOp); ok && inner.Op == token.SUB && isCounter(outer.Y) {
+		if one, ok := constInt(inner.Y); ok && one == 1 && isLen(inner.X) {
+			return true
+		}
+	}
+	// (N - k) - 1
+	if one, ok := constInt(outer.Y); ok && one == 1 {
+		if inner, ok := c.resolve(outer.X).(*ssa.BinOp); ok && inner.Op == token.SUB && isLen(inner.X) && isCounter(inner.Y) {
+			return true
+		}
+	}
+	return false
+}
+
+func (c *Ctx) detectMirror(l *scanLoop) {
+	for b := range l.L.Blocks {
+		for _, in := range b.Instrs {
+			if ia, ok := in.(*ssa.IndexAddr); ok {
+				if id := c.listID(ia.X); id != nil && id == l.Var && c.mirrorIndex(ia.Index, l) {
+					l.Mirror = true
+				}
+			}
+		}
+	}
 }
